@@ -1,9 +1,9 @@
 package engine
 
 import (
-	"strconv"
 	"net/netip"
 	"sort"
+	"strconv"
 	"strings"
 	"time"
 
@@ -161,6 +161,6 @@ func (w *world) SockOpened(s *vnet.Sim, k *vnet.Socket) {
 		if err != nil {
 			continue
 		}
-		s.After(e.After, "feed", func() { s.DeliverUDP(from, dst, e.Data, "feed:" + strconv.Itoa(i) + ":" + e.Class) })
+		s.After(e.After, "feed", func() { s.DeliverUDP(from, dst, e.Data, "feed:"+strconv.Itoa(i)+":"+e.Class) })
 	}
 }
